@@ -3,6 +3,7 @@ mod c01;
 mod c02;
 mod c03;
 mod c04;
+mod c07d;
 mod c05;
 mod c08;
 mod c09;
@@ -10,6 +11,7 @@ mod c10;
 mod c11;
 mod c12;
 mod c13;
+mod c14;
 mod c15;
 mod c16;
 mod c17;
@@ -47,6 +49,7 @@ macro_rules! dispatch {
             "C11" => c11::$f($($a),*),
             "C12" => c12::$f($($a),*),
             "C13" => c13::$f($($a),*),
+            "C14" => c14::$f($($a),*),
             "C15" => c15::$f($($a),*),
             "C16" => c16::$f($($a),*),
             "C17" => c17::$f($($a),*),
@@ -84,6 +87,10 @@ fn main() {
             std::process::exit(2);
         }
     };
+    if args[1] == "c07d" {
+        c07d::main(&args[2]);
+        return;
+    }
     let id = static_id(&args[2].to_uppercase());
     match args[1].as_str() {
         "run" => {
